@@ -192,3 +192,61 @@ Example nested_subimage_outside_scope :
   | None => None
   end = Some 256.
 Proof. vm_compute. reflexivity. Qed.
+
+(* ------------------------------------------------------------------ *)
+(* Tie by TRANSLATION (besides the correspondence runs): Generated/StudySrc.v is produced by
+   harness/py2coq.py from toasty/study.py in /repo's working tree on every build -- class
+   StudyTiling's constructor, compute_for_subimage, n_deepest_layer_tiles, image_to_tile,
+   count_populated_positions and the generator generate_populated_positions, statement by
+   statement -- and the theorems below state that those translated definitions ARE the model
+   functions the C08 theorems above speak about, for every input ([fuel] only has to exceed the
+   number of doublings of next_highest_power_of_2).  Proofs in Proofs/StudySrcP.v. *)
+From Toasty Require Import Model.SrcPrelude Generated.StudySrc Proofs.StudySrcP.
+
+Theorem src_constructor_is_model :
+  forall (w h : Z) (fuel : nat), (Z.to_nat (Z.log2_up (Z.max w h)) < fuel)%nat ->
+  src_StudyTiling_init fuel w h = option_map to_st (study_tiling w h).
+Proof. exact StudySrcP.src_init_eq. Qed.
+Print Assumptions src_constructor_is_model.
+
+Theorem src_compute_for_subimage_is_model :
+  forall (t : tiling) (ix iy sw sh : Z) (fuel : nat),
+  (Z.to_nat (Z.log2_up (Z.max (t_width t) (t_height t))) < fuel)%nat ->
+  src_StudyTiling_compute_for_subimage fuel (to_st t) ix iy sw sh =
+  option_map to_st (compute_for_subimage t ix iy sw sh).
+Proof. exact StudySrcP.src_compute_for_subimage_eq. Qed.
+Print Assumptions src_compute_for_subimage_is_model.
+
+Theorem src_image_to_tile_is_model :
+  forall (t : tiling) (x y : Z),
+  src_StudyTiling_image_to_tile (to_st t) x y = Some (image_to_tile t x y).
+Proof. exact StudySrcP.src_image_to_tile_eq. Qed.
+Print Assumptions src_image_to_tile_is_model.
+
+Theorem src_counts_are_model :
+  forall t : tiling,
+  src_StudyTiling_count_populated_positions (to_st t) = Some (count_populated_positions t) /\
+  src_StudyTiling_n_deepest_layer_tiles (to_st t) = Some (n_deepest_layer_tiles t).
+Proof. intros t. split; [apply StudySrcP.src_count_populated_eq|apply StudySrcP.src_n_deepest_eq]. Qed.
+Print Assumptions src_counts_are_model.
+
+Theorem src_generate_populated_positions_is_model :
+  forall t : tiling,
+  src_StudyTiling_generate_populated_positions (to_st t) =
+  Some (map to_stup (generate_populated_positions t)).
+Proof. exact StudySrcP.src_generate_populated_eq. Qed.
+Print Assumptions src_generate_populated_positions_is_model.
+
+(* the translated definitions run: the tiling of a 513 x 255 image, a sub-image of it, and the
+   first generated tuple *)
+Example src_study_runs :
+  src_StudyTiling_init 20 513 255 = Some (mkST 513 255 1024 4 2 255 384) /\
+  src_StudyTiling_init 20 0 255 = None /\
+  src_StudyTiling_compute_for_subimage 20 (mkST 513 255 1024 4 2 255 384) 500 200 13 55
+    = Some (mkST 13 55 1024 4 2 755 584) /\
+  src_StudyTiling_compute_for_subimage 20 (mkST 513 255 1024 4 2 255 384) 500 200 14 55 = None /\
+  src_StudyTiling_image_to_tile (mkST 513 255 1024 4 2 255 384) 1 (-1) = Some (1, 1, 0, 127) /\
+  option_map (@length _) (src_StudyTiling_generate_populated_positions (mkST 513 255 1024 4 2 255 384)) = Some 6%nat /\
+  option_map (hd_error (A:=_)) (src_StudyTiling_generate_populated_positions (mkST 513 255 1024 4 2 255 384))
+    = Some (Some (mkSP 2 0 1, 1, 128, 0, 0, 255, 128)).
+Proof. vm_compute. repeat split. Qed.
